@@ -12,7 +12,7 @@ import z3
 
 from contracts.storemodel import (TS, FieldSetStub, GhostFile, IndexGroup, TrajRec, install_ghost_os, install_store_models,
                                   make_cache, make_ncfiles, make_store, register_file)
-from contracts.C09 import NAMES, ROWJ, OpenedStub, setup_inputs
+from contracts.C09 import NAMES, ROWJ, OpenedStub, handle_clauses, setup_inputs
 from pyvc.source import Unsupported
 from pyvc.values import PyExc, to_z3
 from pyvc.verify import unit
@@ -181,6 +181,7 @@ def merge_interrupted(h):
     except PyExc as e:
         failed = True
         exc = e
+    handle_clauses(h, gos, '-also-when-interrupted')
     if not failed:
         h.ensure('fault-free-merge-completes', gos.step < step and 'out.aeic-store/metadata.json' in gos.json)
         return
@@ -257,6 +258,7 @@ def merge_refused(h):
     except PyExc as e:
         h.ensure('refusal-is-a-named-error', h.exc_is(e, 'ValueError'), note=repr(e.inst))
     h.ensure('refused-merge-leaves-inputs-in-place', all(n in I.hooks['nc_files'] for n in names))
+    handle_clauses(h, gos, '-also-when-refused')
     h.ensure('refused-merge-announces-nothing', 'out.aeic-store/metadata.json' not in gos.json)
     # correct the cause and retry
     if kind == 0:
@@ -496,6 +498,12 @@ def replay_merge(payload):
     from AEIC.trajectories import TrajectoryStore
     from contracts.C07 import _mk
     problems = []
+    if 'holds-it-open' in str(payload.get('clause')) or 'closes-every-store' in str(payload.get('clause')):
+        # what an input moved while merge() still holds it open does natively: the completed merged directory cannot be read
+        # in the process that made it (C09's child-process scenario)
+        from contracts.C09 import native_merge_then_open
+        problems += native_merge_then_open(6)
+        return dict(reproduced=bool(problems), observed=problems, required='every trajectory readable from the merged directory once merge() has returned')
     tmp = tempfile.mkdtemp(prefix='c10m-', dir=os.environ.get('VERIF_SCRATCH'))
     try:
         def make_inputs(d, extra_fs=False, ids=True):
